@@ -1229,7 +1229,13 @@ def real_model(idx, radius=1.0, extra=False):
             p.set_performance_metric(2 * (f(x) - fs) / L + (x - xs) ** 2 / 2)
         if kind == "lmi":
             a, b = x0 - xs, x - xs
-            p.add_psd_matrix([[a ** 2, a * b], [a * b, b ** 2]])
+            if idx % 12 < 6:
+                p.add_psd_matrix([[a ** 2, a * b], [a * b, b ** 2]])
+            else:
+                # not symmetric as written: a free leaf expression below the diagonal (it does not enter the
+                # objective, so its entry multipliers vanish and the certificate is unaffected)
+                from PEPit import Expression
+                p.add_psd_matrix([[a ** 2, a * b], [Expression(), b ** 2]])
         if kind == "partition":
             part = p.declare_block_partition(d=2)
             part.get_block(x0, 0)
@@ -1357,6 +1363,9 @@ def check_instance(p, h, idx, problems, stats):
     for m in p._list_of_psd_sent_to_wrapper:
         M = np.array(m.eval(), dtype=float)
         worst = max(worst, -float(np.min(np.linalg.eigvalsh((M + M.T) / 2))))
+        # a matrix constrained to be PSD is symmetric at the instance, also when its entries are not symmetric as
+        # written (the solver's matrix variable is symmetric and every entry is tied to it)
+        worst = max(worst, float(np.max(np.abs(M - M.T))))
         for i in range(M.shape[0]):
             for j in range(M.shape[1]):
                 r = recompute_expr(m[i, j].decomposition_dict)
